@@ -393,6 +393,8 @@ def check_C06(tier):
 
 
 def models_v1_grace(v, sc, binary):
+    simple_model(v, sc, "MC_SimpleV1")
+    simple_model(v, sc, "MC_SimpleV1_twinC07", expect="inv")
     v1_model(v, sc, binary, mk1("v1gracelive", [2, 1], {2: 1, 1: 2}, 2, "rate", 2, 1, 1, graceful=True), spec="GraceSpec", properties=["C07_Live"])
 
 
@@ -767,7 +769,27 @@ def has(t, *names):
     return any(n in t.get("kinds", ()) for n in names)
 
 
+def simple_model(v, sc, cfg, expect=None):
+    """SimpleV1.tla (main + deferred chain + gracefulStop helper + handlers): TLC on a static configuration; expect = None (must pass),
+    "live" (regression twin: the liveness property must fail), "inv" (an invariant must fail)"""
+    sub = os.path.join(sc, "sm-" + cfg)
+    os.makedirs(sub, exist_ok=True)
+    stage_specs(sub)
+    r = tlc(sub, "SimpleV1", cfg=cfg + ".cfg", workers=8, timeout=900)
+    if expect is None:
+        if not r.ok:
+            raise Inconclusive("TLC: SimpleV1 / %s fails (a lead, not a verdict) or TLC failed\n%s" % (cfg, r.out[-2500:]))
+        v.add_tlc(r, "SimpleV1 %s (v1 simplified discipline: main, deferred chain, gracefulStop helper, handlers)" % cfg)
+        return
+    got = r.prop_violated if expect == "live" else bool(r.inv_violated)
+    if not got:
+        raise Inconclusive("regression twin SimpleV1 / %s: expected a %s violation on the model of the defective variant" % (cfg, expect))
+    v.cov.setdefault("regression_twins", []).append("SimpleV1 %s: violated as expected (%s)" % (cfg, expect))
+
+
 def models_C16(v, sc, binary):
+    simple_model(v, sc, "MC_SimpleV1")
+    simple_model(v, sc, "MC_SimpleV1_twinF5", expect="live")
     small = mk1("v1stopm", [2, 1], {2: 1, 1: 2}, 2, "rate", 2, 1, 1, stop=True, cancel=True)   # 2 items can occupy both handlers
     v1_model(v, sc, binary, small, spec="StopSpec", properties=["C16_Live"])
     twin = dict(small, name="v1stoptwin", f3fixed=False)
